@@ -170,6 +170,26 @@ CHECKS['C20'] = dict(
     note='Trusted as for C01; the name lists are derived by ast from the emitted source and the runtime text.',
     design='7 (C20)')
 
+CHECKS['C05'] = dict(
+    technique='Lean 4 proof that the flat-locals implementation model (xgen) refines the lexical-environment specification (xpeg) on all well-scoped programs without shadowing, for every interpretation of inline Python; hand-written model tied to the generator by differential correspondence (outcomes, and free names of every argument expression against the real freevars())',
+    text=('Proof: C05_flat_locals_realise_lexical_scoping (simulation xgen ~ xpeg for every expression, scope, locals and environment that agree; by induction on fuel with invariants for closures captured by value), '
+          'C05_rule_outcome, C05_where_apply_class (the where / |> / class-body clauses), C05_shadowing_breaks_it (witness of the known finding: with shadowing model and implementation both return the inner value). '
+          'Tie: typed random programs and hand-written families for every clause; every case is decided three ways: real = xgen (correspondence of the implementation model), real = xpeg (the property), '
+          'sorted(expr.freevars()) of every argument expression of the real prepared objects = captured e of the model. '
+          'PARTIAL: positions/restores are those of the core model (C01); error positions are not compared here; the repetition count is evaluated once in the model.'),
+    note='Trusted: Lean kernel; harness/envgen.py (renderer + wire encoder), harness/envrun.py; the fixed inline-Python repertoire of the driver (EnvWire.pyf) matches the Python text of envgen.py_text.',
+    design='7 (C05), 3.6')
+
+CHECKS['C06'] = dict(
+    technique='Lean 4 proof that a template call in the implementation model (helper functions with captured sorted free names, _ParseFunction frames) has the outcome of the body with parameters denoting their arguments (closures of expression + call-site environment) and leaves the caller untouched; differential correspondence incl. call-vs-textual-expansion on the real generator',
+    text=('Proof: C06_call_is_body_with_arguments (for every well-scoped program, call site, locals and environment that agree: xgen(call) = xpeg(body in the parameter environment), caller locals unchanged), '
+          'C06_arguments_bind_parameters (positional in order, keywords by name, exactly the parameters), on top of the simulation theorem of C05. '
+          'Tie: hand-written families (same template at one position with different arguments, nesting, keywords in any order, values of every type incl. unhashable, literals as value and parser, arguments mentioning call-site names passed on, recursion, class templates) '
+          'and typed random programs, with and without grammar header; real = xgen, real = xpeg, and real(program) = real(textual expansion of its non-class template calls). '
+          'PARTIAL: the memo of the trampoline is outside the names layer (C07 covers it for a correct key equality); the known finding equal-values-share-memo is exactly where the key equality is too coarse.'),
+    note='Trusted as for C05; harness/envgen.expand (textual expansion, refuses call sites that would need renaming).',
+    design='7 (C06), 3.6')
+
 NOT_YET = {
 }
 
